@@ -159,6 +159,116 @@ def _euclid_loop(I, pa, pb):
     return bool(I.final_states)
 
 
+INT_TYPES = ("i8", "i16", "i32", "i64", "i128", "isize", "u8", "u16", "u32", "u64", "u128", "usize")
+
+
+def rule_integer_prims(col, prog, rid="Q4"):
+    """what the generic code stands on for the primitive integers (rlib_num_traits is among the property's files):
+    ZeroOne::ZERO / ONE evaluate to 0 / 1, Integer::abs / into_abs are the core absolute value for the signed types and
+    the identity for the unsigned ones"""
+    nt = prog.crates.get("rlib_num_traits")
+    if nt is None:
+        raise Anchor("rlib_num_traits is not part of the export")
+    col.rule(rid, "num_traits for the primitive integers: ZERO = 0, ONE = 1; abs / into_abs = core abs (signed) / identity (unsigned)", floor=36)
+    imps = {i["key"]: i for i in nt.impls}
+    seen = set()
+    for k in nt.consts:
+        imp = imps.get(k.get("parent"))
+        if imp is None or k["name"] not in ("ZERO", "ONE") or not str(imp.get("trait") or "").endswith("ZeroOne") or imp["self_ty"] not in INT_TYPES:
+            continue
+        want = 0 if k["name"] == "ZERO" else 1
+        key = "<%s as ZeroOne>::%s" % (imp["self_ty"], k["name"])
+        seen.add(key)
+        loc = "%s:%d" % (k["span"]["file"], k["span"]["line"])
+        if k.get("val") == want:
+            col.ok(rid, loc, key, "= %d" % want, nontrivial=False)
+        else:
+            col.violation(rid, key, loc, "%s evaluates to %s, not %d: every generic loop test and identity element built on it is wrong" % (key, k.get("val"), want))
+    for b in nt.bodies:
+        imp = nt.impl_of(b)
+        if imp is None or not str(imp.get("trait") or "").endswith("Integer") or b.name not in ("abs", "into_abs") or imp["self_ty"] not in INT_TYPES:
+            continue
+        I = util.analyse(b)
+        p1 = ("param", 1, I.names.get(1))
+        selfv = p1 if b.name == "into_abs" else ("load", ("m0",), ("deref", p1))
+        signed = imp["self_ty"].startswith("i")
+        ok = bool(I.final_states)
+        for st in I.final_states:
+            r = util.ret_term(st)
+            if signed:
+                args = [x for x in r[2] if not (isinstance(x, tuple) and x and x[0] == "mem")] if isinstance(r, tuple) and r and r[0] == "call" else []
+                ok = ok and isinstance(r, tuple) and r[0] == "call" and str(r[1]).startswith(("core::num::", "std::num::")) and str(r[1]).rsplit("::", 1)[-1] in ("abs", "wrapping_abs") and args == [selfv]
+            else:
+                ok = ok and r == selfv
+        key = "%s|absolute-value" % util.fkey(b)
+        seen.add(key)
+        if ok:
+            col.ok(rid, b.loc(), key, "core abs of the value" if signed else "identity", nontrivial=False)
+        else:
+            col.violation(rid, key, b.loc(), "%s is not the absolute value of its operand (%s)" % (b.path, "; ".join(tstr(util.ret_term(st))[:60] for st in I.final_states)))
+    # a method missing from the impls may be provided by the trait itself as a forwarder to its sibling
+    # (`fn into_abs(self) -> Self { self.abs() }`): then the sibling, checked above, is what runs
+    provided = {}
+    for b in nt.bodies:
+        if b.is_closure or nt.impl_of(b) is not None or b.name not in ("abs", "into_abs") or not b.path.endswith("Integer::%s" % b.name):
+            continue
+        I = util.analyse(b)
+        other = "into_abs" if b.name == "abs" else "abs"
+        fwd = bool(I.final_states)
+        for st in I.final_states:
+            r = util.ret_term(st)
+            calls = [e for e in st.event_list() if e.kind == "call" and e.extra.get("name") == other and str(e.extra.get("trait") or "").endswith("Integer")]
+            fwd = fwd and len(calls) == 1 and r == calls[0].res
+        provided[b.name] = fwd
+    for ty in INT_TYPES:
+        for nm in ("abs", "into_abs"):
+            k_ = [x for x in seen if x.startswith("<%s as " % ty) and x.endswith("::%s|absolute-value" % nm)]
+            other = "into_abs" if nm == "abs" else "abs"
+            k_other = [x for x in seen if x.startswith("<%s as " % ty) and x.endswith("::%s|absolute-value" % other)]
+            if not k_ and provided.get(nm) and k_other:
+                col.ok(rid, "rlib/num_traits/src/lib.rs", "<%s as Integer>::%s|provided" % (ty, nm), "provided by the trait as a forwarder to %s" % other, nontrivial=False)
+                seen.add("<%s as Integer>::%s|provided" % (ty, nm))
+    if len(seen) < 48:
+        col.violation(rid, "num_traits|coverage", "rlib/num_traits/src/lib.rs", "expected ZERO, ONE, abs and into_abs for the 12 primitive integer types, found %d items" % len(seen))
+
+
+def rule_gcd(col, gcd, Af, rid="Q2"):
+    """gcd takes both absolute values and runs Euclid's remainder loop on them (also used by C07, whose normaliser
+    divides by this gcd)"""
+    fk = util.fkey
+    I = Af(gcd)
+    pa, pb = ("param", 1, I.names.get(1)), ("param", 2, I.names.get(2))
+    absd = {}
+    loop_ok = True
+    for st in I.all_end_states():
+        evs = st.event_list()
+        seen_loop = False
+        for e in evs:
+            if e.kind == "loop":
+                seen_loop = True
+            if e.kind == "call" and e.extra.get("name") in ("into_abs", "abs") and not seen_loop:
+                for s in subterms(e.args[0]) if e.args[0][0] != "param" else [e.args[0]]:
+                    if s in (pa, pb):
+                        absd[s] = True
+                v = e.extra["argvals"][0]
+                if v in (pa, pb):
+                    absd[v] = True
+            if e.kind == "call" and seen_loop and not e.extra.get("inlined") and e.extra.get("name") not in ("ne", "eq", "rem_assign", "swap", "rem", "clone", "replace", "take", "not"):
+                loop_ok = False
+    ret_ok = all(util.ret_term(st)[0] == "phi" for st in I.final_states)
+    key = "%s|abs-both" % fk(gcd)
+    if absd.get(pa) and absd.get(pb):
+        col.ok(rid, gcd.loc(), key, "both operands go through into_abs before the loop")
+    else:
+        col.violation(rid, key, gcd.loc(), "gcd does not take the absolute value of %s before the remainder loop: the result can be negative" % ("both operands" if not absd else "one operand"))
+    key = "%s|remainder-loop" % fk(gcd)
+    loop_ok = ret_ok = _euclid_loop(I, pa, pb)
+    if loop_ok and ret_ok:
+        col.ok(rid, gcd.loc(), key, "loop body is `a %= b; swap(a, b)` on the absolute values; returns the loop variable")
+    else:
+        col.violation(rid, key, gcd.loc(), "gcd's loop is not the remainder/swap loop over the absolute values")
+
+
 def check(col, prog, tier, profile, fixture=None):
     crate = prog.crate(fixture or "rlib_gcd")
     free = [f for f in crate.bodies if not f.is_closure and f.kind == "Fn" and f.container is None and f.vis != "pub" and not util.self_recursive(f)]
@@ -243,37 +353,9 @@ def check(col, prog, tier, profile, fixture=None):
         col.violation("Q1", "%s|paths" % fk(egcd), egcd.loc(), "expected a base and a recursive Some-returning path in egcd")
 
     # ---------------- Q2
-    I = Af(gcd)
-    pa, pb = ("param", 1, I.names.get(1)), ("param", 2, I.names.get(2))
-    absd = {}
-    loop_ok = True
-    for st in I.all_end_states():
-        evs = st.event_list()
-        seen_loop = False
-        for e in evs:
-            if e.kind == "loop":
-                seen_loop = True
-            if e.kind == "call" and e.extra.get("name") in ("into_abs", "abs") and not seen_loop:
-                for s in subterms(e.args[0]) if e.args[0][0] != "param" else [e.args[0]]:
-                    if s in (pa, pb):
-                        absd[s] = True
-                v = e.extra["argvals"][0]
-                if v in (pa, pb):
-                    absd[v] = True
-            if e.kind == "call" and seen_loop and not e.extra.get("inlined") and e.extra.get("name") not in ("ne", "eq", "rem_assign", "swap", "rem", "clone", "replace", "take", "not"):
-                loop_ok = False
-    ret_ok = all(util.ret_term(st)[0] == "phi" for st in I.final_states)
-    key = "%s|abs-both" % fk(gcd)
-    if absd.get(pa) and absd.get(pb):
-        col.ok("Q2", gcd.loc(), key, "both operands go through into_abs before the loop")
-    else:
-        col.violation("Q2", key, gcd.loc(), "gcd does not take the absolute value of %s before the remainder loop: the result can be negative" % ("both operands" if not absd else "one operand"))
-    key = "%s|remainder-loop" % fk(gcd)
-    loop_ok = ret_ok = _euclid_loop(I, pa, pb)
-    if loop_ok and ret_ok:
-        col.ok("Q2", gcd.loc(), key, "loop body is `a %= b; swap(a, b)` on the absolute values; returns the loop variable")
-    else:
-        col.violation("Q2", key, gcd.loc(), "gcd's loop is not the remainder/swap loop over the absolute values")
+    rule_gcd(col, gcd, Af)
+    if not fixture:
+        rule_integer_prims(col, prog)
     I = Af(lcm)
     la, lb = ("param", 1, I.names.get(1)), ("param", 2, I.names.get(2))
 
